@@ -223,6 +223,15 @@ func (c *FnCtx) exec(st *State, s ast.Stmt) []Exit {
 		return normal(st)
 	case *ast.GoStmt:
 		c.assumeNote("go statements start another thread whose effects are not part of the spawning function's contract (" + c.pos(x) + ")")
+		if fl, ok := x.Call.Fun.(*ast.FuncLit); ok && c.con != nil && c.con.Flags["threads-inline"] {
+			// the thread's body is verified in place, from the state at the spawn (it holds no lock and knows nothing
+			// about lock-protected state that the interference model does not also give it); the spawner goes on
+			// with its own state
+			_ = fl
+			th := st.clone()
+			c.evalCall(th, x.Call)
+			return normal(st)
+		}
 		// arguments are evaluated in the current goroutine
 		for _, a := range x.Call.Args {
 			c.eval(st, a)
